@@ -280,7 +280,18 @@ fn check_file(bytes: &[u8], m: &FileModel, env: &Env, strict: bool, after: &str,
     None
 }
 
+/// The allocation limit this process runs under (a tuning knob the property must not depend on: a
+/// block of many small values is far below it in bytes, whatever its object count).
+pub const C03_ALLOCATION_LIMIT: usize = 512 * 1024;
+/// Values in the one big `extend` of a many-small-values case (count x size_of::<Value>() exceeds
+/// the limit above; the block's bytes do not).
+const MANY: usize = 10_000;
+
 fn run_case(case: &Case, ctx: &mut Ctx) -> Option<Failure> {
+    static LIMIT: std::sync::Once = std::sync::Once::new();
+    LIMIT.call_once(|| {
+        apache_avro::util::max_allocation_bytes(C03_ALLOCATION_LIMIT);
+    });
     // schema
     let parsed;
     let corpus_schema;
@@ -533,6 +544,9 @@ fn run_case(case: &Case, ctx: &mut Ctx) -> Option<Failure> {
             if case.block_size == 0 {
                 ctx.agg.count("probe.block_size_zero");
             }
+            if matches!(op, Op::Extend { vs, .. } if vs.len() >= MANY) && res.is_ok() {
+                ctx.agg.count("probe.block_with_object_count_beyond_allocation_limit");
+            }
             let pend_class = match model.pending.len() {
                 0 => "0",
                 1 => "1",
@@ -686,6 +700,7 @@ impl Property for C03 {
             "probe.drop_with_pending_values",
             "probe.reopen_after_failed_append",
             "probe.block_size_zero",
+            "probe.block_with_object_count_beyond_allocation_limit",
         ]
     }
 
@@ -810,6 +825,21 @@ impl Property for C03 {
             }
             let _ = g;
             gens.push(Generation { ops, finish: if wr.chance(1, 2) { Finish::IntoInner } else { Finish::Drop } });
+        }
+        // one case in 25 (untyped subjects with a small value): one block of very many values
+        let mut block_size = block_size;
+        if let (Some(rs), Some(p)) = (&rs, &parsed) {
+            let mut mr = rng.fork("many");
+            if mr.chance(1, 25) {
+                if let Val::R(v) = gen_val(&mut mr) {
+                    if refimpl::encode_vec(&v, rs, &p.defs).len() <= 16 {
+                        let g = mr.usize_below(gens.len());
+                        let at = mr.usize_below(gens[g].ops.len() + 1);
+                        gens[g].ops.insert(at, Op::Extend { how: mr.below(2) as u8, vs: vec![Val::R(v); MANY] });
+                        block_size = 400_000;
+                    }
+                }
+            }
         }
         let nmeta = *wr.pick(&[0usize, 0, 1, 2]);
         Some(Case {
